@@ -9,6 +9,15 @@ from ..loader import AnalysisError
 CACHE_CLASS = "storage_base.MemoryCache"
 
 
+def assign_pairs(st):
+    """(target, value) pairs bound by a plain or an annotated assignment statement (`x = v`, `x: T = v`, `a = b = v`)."""
+    if isinstance(st, ast.Assign):
+        return [(t, st.value) for t in st.targets]
+    if isinstance(st, ast.AnnAssign) and st.value is not None:
+        return [(st.target, st.value)]
+    return []
+
+
 def self_attr(node, name=None) -> Optional[str]:
     """`self.x` -> 'x' (optionally require x == name)."""
     if isinstance(node, ast.Attribute) and isinstance(node.value, ast.Name) and node.value.id == "self":
@@ -17,11 +26,90 @@ def self_attr(node, name=None) -> Optional[str]:
     return None
 
 
+def _stored_attrs_outside_init(repo, cls):
+    """attribute names that some statement outside `cls.__init__` rebinds (`<x>.a = ...`, `<x>.a += ...`, `del <x>.a`, loop / with targets)"""
+    out = set()
+    for m in repo.modules.values():
+        for n in ast.walk(m.tree):
+            if isinstance(n, ast.Attribute) and isinstance(n.ctx, (ast.Store, ast.Del)):
+                out.add((n.attr, id(n)))
+    init = cls.methods.get("__init__")
+    own = {id(n) for n in ast.walk(init.node)} if init is not None else set()
+    return {a for (a, i) in out if i not in own}
+
+
+def unalias_fixed_attrs(repo, cls) -> int:
+    """Normalisation (idempotent, meaning-preserving): inside the methods of `cls`, a local that is bound exactly once, by
+    `name = self.<attr>` where <attr> is bound only in `__init__` (the object it names is fixed for the life of the instance: a
+    container slot, the lock, the budget), is replaced by `self.<attr>` at its uses and the binding is dropped.  `lru = self.lru_deque;
+    lru.remove(k)` thereby reads `self.lru_deque.remove(k)`, which is what every rule about the slots looks for.  Attributes
+    that are rebound elsewhere (a counter) are left alone: a local copy of those is a snapshot, not an alias."""
+    if getattr(cls, "_unaliased", False):
+        return 0
+    cls._unaliased = True
+    rebound = _stored_attrs_outside_init(repo, cls)
+    done = 0
+    for name, m in cls.methods.items():
+        if name == "__init__" or not m.params or m.is_static:
+            continue
+        me = m.params[0]
+        fn = m.node
+        # every binding occurrence of every name in the function (nested scopes included, to stay on the safe side)
+        binds = {}
+        for n in ast.walk(fn):
+            if isinstance(n, ast.Name) and isinstance(n.ctx, (ast.Store, ast.Del)):
+                binds.setdefault(n.id, []).append(n)
+            elif isinstance(n, ast.arg):
+                binds.setdefault(n.arg, []).append(n)
+            elif isinstance(n, (ast.Global, ast.Nonlocal)):
+                for x in n.names:
+                    binds.setdefault(x, []).append(n)
+            elif isinstance(n, ast.ExceptHandler) and n.name:
+                binds.setdefault(n.name, []).append(n)
+            elif isinstance(n, (ast.Import, ast.ImportFrom)):
+                for al in n.names:
+                    binds.setdefault((al.asname or al.name).split(".")[0], []).append(n)
+        alias = {}
+        drop = []
+        for st in ast.walk(fn):
+            if isinstance(st, ast.Assign) and len(st.targets) == 1 and isinstance(st.targets[0], ast.Name):
+                v = st.value
+                if isinstance(v, ast.Attribute) and isinstance(v.value, ast.Name) and v.value.id == me and v.attr not in rebound \
+                        and len(binds.get(st.targets[0].id, [])) == 1 and len(binds.get(me, [])) == 1:
+                    alias[st.targets[0].id] = v.attr
+                    drop.append(st)
+        if not alias:
+            continue
+
+        class T(ast.NodeTransformer):
+            def visit_Name(self, n):
+                if isinstance(n.ctx, ast.Load) and n.id in alias:
+                    return ast.copy_location(ast.Attribute(value=ast.copy_location(ast.Name(id=me, ctx=ast.Load()), n), attr=alias[n.id], ctx=ast.Load()), n)
+                return n
+
+            def generic_visit(self, node):
+                super().generic_visit(node)
+                for fld in ("body", "orelse", "finalbody"):
+                    lst = getattr(node, fld, None)
+                    if isinstance(lst, list) and any(x in drop for x in lst):
+                        kept = [x for x in lst if x not in drop]
+                        if not kept and fld == "body":
+                            kept = [ast.copy_location(ast.Pass(), lst[0])]
+                        setattr(node, fld, kept)
+                return node
+
+        T().visit(fn)
+        ast.fix_missing_locations(fn)
+        done += len(alias)
+    return done
+
+
 class CacheModel:
     def __init__(self, ck):
         self.ck = ck
         repo = ck.repo
         self.cls = repo.cls(CACHE_CLASS)
+        unalias_fixed_attrs(repo, self.cls)
         init = self.cls.methods.get("__init__")
         ck.need(init is not None, "MemoryCache.__init__ not found")
         ck.functions_analysed.add(init.qual)
@@ -29,11 +117,10 @@ class CacheModel:
         maps, queues, counters, budgets, weak, locks = [], [], [], [], [], []
         init_params = set(init.params) - {"self"}
         for st in A.all_stmts(init.node):
-            if isinstance(st, ast.Assign) and len(st.targets) == 1:
-                f = self_attr(st.targets[0])
+            for (tg, v) in assign_pairs(st):
+                f = self_attr(tg)
                 if not f:
                     continue
-                v = st.value
                 if isinstance(v, ast.Call):
                     d = (A.dotted(v.func) or "").split(".")[-1]
                     if d in ("dict", "OrderedDict"):
@@ -158,3 +245,177 @@ class CacheModel:
             and isinstance(call.func.value, ast.Name)
             and call.func.value.id == "self"
         )
+
+
+# ---- meaning-level queries shared by the C05 / C06 / C09 rules -------------------------------------------
+# The rules ask WHAT a branch establishes and WHICH events lie on a path, not how a statement is spelled.
+
+def branch_filter(fa, excuse):
+    """An `edge_ok` for CFG.reach / must_pass / path that refuses every branch edge whose taking IMPLIES a
+    literal accepted by `excuse(text, polarity)`.  Literals are those of FA._atoms: locals expanded through
+    their definitions, `not`, De Morgan, `is not` / `!=` / `not in` normalised, so `if self.read_only: return`,
+    `if not self.read_only: <body>` and `ro = self.read_only ... if ro:` all give the literal
+    ('self.read_only', True) on the edge that leaves.  A disjunction taken true implies none of its parts and
+    is (correctly) not excused."""
+    memo = {}
+
+    def implies(t, n, positive):
+        """does `t` evaluating to `positive` imply an excused literal?  (a conjunction that holds implies what any part
+        implies; a disjunction that holds only what every part implies)"""
+        if isinstance(t, ast.UnaryOp) and isinstance(t.op, ast.Not):
+            return implies(t.operand, n, not positive)
+        if isinstance(t, ast.BoolOp):
+            conj = (isinstance(t.op, ast.And) and positive) or (isinstance(t.op, ast.Or) and not positive)
+            parts = [implies(v, n, positive) for v in t.values]
+            return any(parts) if conj else all(parts)
+        try:
+            (txt, pol) = fa._literal(t, n, positive)
+        except AnalysisError:
+            return False
+        return bool(excuse(txt, pol))
+
+    def edge_ok(s, d, l):
+        if l not in ("T", "F"):
+            return True
+        k = (s, l)
+        if k not in memo:
+            nd = fa.cfg.node(s)
+            memo[k] = not (nd.kind == "test" and nd.ast is not None and implies(nd.ast, s, l == "T"))
+        return memo[k]
+
+    return edge_ok
+
+
+def both(*filters):
+    fs = [f for f in filters if f is not None]
+    return lambda s, d, l: all(f(s, d, l) for f in fs)
+
+
+def no_back_edges(s, d, l):
+    """edge_ok restricting a query to ONE iteration of every loop."""
+    return l not in ("back", "continue")
+
+
+def every_path_through(fa, anchors, events, edge_ok=None) -> bool:
+    """Does every entry->exit path that passes one of the CFG nodes `anchors` also pass one of `events`
+    (before or after the anchor)?  <=> for each anchor: all ways in pass an event, or all ways out do."""
+    cfg = fa.cfg
+    events = set(events)
+    for a in anchors:
+        if a in events:
+            continue
+        before = cfg.must_pass(events, a, edge_ok=edge_ok)
+        after = cfg.exit not in cfg.reach([a], removed=events, edge_ok=edge_ok, include_start=False)
+        if not (before or after):
+            return False
+    return True
+
+
+def at_most_once(fa, events) -> bool:
+    """No path executes two of the `events` nodes within one loop iteration."""
+    cfg = fa.cfg
+    events = list(dict.fromkeys(events))
+    for e in events:
+        r = cfg.reach([e], edge_ok=no_back_edges, include_start=False)
+        if any(x in r for x in events):
+            return False
+    return True
+
+
+def strip_not(e, positive=True):
+    while isinstance(e, ast.UnaryOp) and isinstance(e.op, ast.Not):
+        e, positive = e.operand, not positive
+    return e, positive
+
+
+def bool_leaves(test):
+    """Leaves of the and / or / not structure of a test."""
+    t, _ = strip_not(test)
+    if isinstance(t, ast.BoolOp):
+        out = []
+        for v in t.values:
+            out += bool_leaves(v)
+        return out
+    return [t]
+
+
+def bool_eval(test, val):
+    """Value of `test` given truth values for its leaves (`val`: id(leaf) -> bool)."""
+    t, pos = strip_not(test)
+    if isinstance(t, ast.BoolOp):
+        vs = [bool_eval(v, val) for v in t.values]
+        r = all(vs) if isinstance(t.op, ast.And) else any(vs)
+    else:
+        r = val[id(t)]
+    return r if pos else not r
+
+
+def edge_implies(test, label_true: bool, fact_of) -> bool:
+    """Does `test` evaluating to `label_true` imply that at least one leaf establishes the wanted fact?
+    `fact_of(leaf, value)` says whether that leaf having that truth value establishes it.  Decided by the
+    truth table over the leaves (free leaves range over both values)."""
+    leaves = bool_leaves(test)
+    if len(leaves) > 10:
+        return False
+    import itertools
+    feasible = False
+    for bits in itertools.product((False, True), repeat=len(leaves)):
+        val = {id(lf): b for lf, b in zip(leaves, bits)}
+        if bool_eval(test, val) != label_true:
+            continue
+        feasible = True
+        if not any(fact_of(lf, b) for lf, b in zip(leaves, bits)):
+            return False
+    return feasible
+
+
+def linear_terms(e, sign=1, out=None):
+    """`a + b - c` -> [(+1, a), (+1, b), (-1, c)]"""
+    out = [] if out is None else out
+    if isinstance(e, ast.BinOp) and isinstance(e.op, (ast.Add, ast.Sub)):
+        linear_terms(e.left, sign, out)
+        linear_terms(e.right, sign if isinstance(e.op, ast.Add) else -sign, out)
+    elif isinstance(e, ast.UnaryOp) and isinstance(e.op, ast.USub):
+        linear_terms(e.operand, -sign, out)
+    elif isinstance(e, ast.UnaryOp) and isinstance(e.op, ast.UAdd):
+        linear_terms(e.operand, sign, out)
+    else:
+        out.append((sign, e))
+    return out
+
+
+def safe_expand(fa, e, at=None):
+    """FA.expand, or `e` itself where it sits in code the explicit-edge CFG cannot reach (e.g. a handler of a try body
+    that cannot raise): nothing is known about locals there."""
+    ids = fa.nodes(at if at is not None else e)
+    try:
+        return fa.expand(e, ids[0]) if ids else e
+    except AnalysisError:
+        return e
+
+
+def value_sources(fa, ret, max_depth=4):
+    """What a `return` hands out, per origin: [(expression, CFG node where it is evaluated)].  A returned local is
+    followed through its reaching plain assignments -- one (a temporary) or several (a result variable set on different
+    branches and returned once at the end) -- so that a rule about "the value served" sees `entry.value` and
+    `self.refs[k]` whether they are returned directly or through `value = ...; return value`."""
+    out = []
+
+    def rec(e, nid, depth):
+        if isinstance(e, ast.Name) and depth < max_depth:
+            ds = fa.df.reaching(nid, e.id)
+            if ds and all(d.kind == "assign" and d.value is not None and d.node >= 0 for d in ds):
+                for d in ds:
+                    rec(d.value, d.node, depth + 1)
+                return
+        out.append((e, nid))
+
+    if ret.value is not None:
+        for i in fa.nodes(ret):
+            rec(ret.value, i, 0)
+    seen, uniq = set(), []
+    for (e, i) in out:
+        if (id(e), i) not in seen:
+            seen.add((id(e), i))
+            uniq.append((e, i))
+    return uniq
